@@ -1,5 +1,5 @@
 """C02 - SSC simfile: serialize then parse gives back the same simfile (structural clauses)."""
-from ..rules import readers, serial, writers
+from ..rules import entry, readers, serial, writers
 from ..rules.ident import ident_rule
 
 EXPLANATION = (
@@ -29,6 +29,10 @@ def c4(ctx):
     readers.ssc_simfile_table(ctx, raw_key_ok=True, relaxed=True)
 
 
+def c6(ctx):
+    entry.detection_fallback(ctx)
+
+
 def c5(ctx):
     serial.null_sweep(ctx, 'ssc')
     serial.serializer_raw_text(ctx, 'ssc')
@@ -40,4 +44,5 @@ CLAUSES = [
     ("C02.3", "multi-value symmetry on simfile and chart level", c3),
     ("C02.4", "chart opening/closing in SSCSimfile._parse", c4),
     ("C02.5", "R-NULL at the sinks; only parameters and whitespace are written; layout", c5),
+    ("C02.6", "the text is auto-detected as SSC when VERSION is the first key (whatever its value)", c6),
 ]
